@@ -798,6 +798,8 @@ class Executor:
                 keys = sorted(set(a.attrs) | set(b.attrs))
                 for k in keys:
                     if k not in a.attrs or k not in b.attrs:
+                        if isinstance(a.attrs.get(k, b.attrs.get(k)), VOpaque):
+                            continue        # a value outside the model (free symbols, drawing attributes)
                         self.prove(name + ':attr-' + k, False)
                     else:
                         self.prove_equal(name + '.' + k, a.attrs[k], b.attrs[k])
